@@ -148,10 +148,71 @@ Definition run_kill (x : sx) : sx :=
   | _ => err "bad case"
   end.
 
+(* leg coldstart: case ( k after_kill ).  No server on a fresh port, k real clients released together.  Which
+   client's server wins the port is up to the scheduler, so the model's output is its decision TABLE: for every
+   start-up class a client can report (existing = first connect worked, started = its own server reported Ok,
+   addr_in_use = its own server lost the port) the outcome `compile_process` predicts when a listener is there and
+   the exchange is complete; the check looks every client's (class, outcome) up in it (trace acceptance). *)
+Definition enc_process (p : process_outcome) : list sx :=
+  match p with
+  | PStartError _ => [sym "error"; SN 2]
+  | PCompile o => [ match o with ReturnFinished _ => sym "finished" | RunLocally _ => sym "local"
+                               | SccacheError _ => sym "error" end; SN (exit_code o 0) ]
+  end.
+
+Definition run_coldstart (x : sx) : sx :=
+  let bytes := frame (encode_compile_response CompileStarted) ++ frame (encode_finished fin0) in
+  let row name first rep later :=
+      SL (sym name :: enc_process (compile_process opq0 false first rep later bytes Eof)) in
+  SL [ row "existing" AOk SSpawnErr [];
+       row "started" ARefused (SOk true) [ARefused; AOk];
+       row "addr_in_use" ARefused SAddrInUse [ARefused; AOk];
+       row "timed_out" ARefused STimedOut [AOk];
+       row "start_err" ARefused SErr [AOk];
+       row "no_listener" ARefused SAddrInUse [] ].
+
+(* leg poison: case ( cc ( step ... ) ), step = ( bad how via ) | ( good via n ).
+   All steps go to ONE fresh server, in order.  `bad` = a well-formed compile request that cannot be served
+   because of what the REQUEST carries (environment that makes the probe fail; a working directory that does not
+   exist: the probe does not use it, so the compiler is detected and the compile itself fails) or because the executable is unusable at that moment (broken_exe: fixed right afterwards, new mtime) or
+   names something else (unsupported_exe, nonexistent_exe: other paths); `good` = n ordinary requests for compiler
+   `cc`.  Output: per step the list of answers: served | unsupported | failed (a bad request that found the
+   compiler already detected is accepted and then fails in its own compile). *)
+Definition path_of (how : sx) : list N :=
+  if is_sym "unsupported_exe" how then [2] else if is_sym "nonexistent_exe" how then [3] else [1].
+
+Fixpoint run_steps (m : compilers) (mt : N) (steps : list sx) : list sx :=
+  match steps with
+  | [] => []
+  | st :: r =>
+      match st with
+      | SL [t; a; b] =>
+          if is_sym "bad" t then
+            let how := a in
+            let mt1 := if is_sym "broken_exe" how then mt + 1 else mt in
+            let '(ans, m1) := compiler_info m {| q_path := path_of how; q_mtime := mt1; q_probe_ok := is_sym "bad_cwd" how |} in
+            let mt2 := if is_sym "broken_exe" how then mt1 + 1 else mt1 in
+            SL [if ans then sym "failed" else sym "unsupported"] :: run_steps m1 mt2 r
+          else
+            let qs := repeat {| q_path := [1]; q_mtime := mt; q_probe_ok := true |} (N.to_nat (get_N b)) in
+            let '(ans, m1) := serve_all m qs in
+            SL (map (fun x : bool => if x then sym "served" else sym "unsupported") ans) :: run_steps m1 mt r
+      | _ => SL [sym "bad_step"] :: run_steps m mt r
+      end
+  end.
+
+Definition run_poison (x : sx) : sx :=
+  match x with
+  | SL [_; SL steps] => SL (run_steps [] 1 steps)
+  | _ => err "bad case"
+  end.
+
 Definition dispatch (leg : list N) (x : sx) : sx :=
   if bytes_eqb leg (bs "client") then run_client x
   else if bytes_eqb leg (bs "decode_resp") then enc_response (decode_response opq0 (get_B x))
   else if bytes_eqb leg (bs "decode_req") then enc_request (decode_request (get_B x))
   else if bytes_eqb leg (bs "server") then run_server x
   else if bytes_eqb leg (bs "kill") then run_kill x
+  else if bytes_eqb leg (bs "coldstart") then run_coldstart x
+  else if bytes_eqb leg (bs "poison") then run_poison x
   else err "unknown leg".
